@@ -5,7 +5,8 @@
    finish_write) followed by the client's half-close.  Parameters of the handler model:
    maxsz = max_cas_blob_size; present = a blob with the declared hash and size is in the cache;
    put_ok j = disk.Put accepts the concatenated data of the first j messages followed by a clean EOF;
-   beh = whether Put fails before the end of the stream (its reader failing); sel = which of two
+   beh = whether Put returns before the end of the stream (with an error when its reader fails; with
+   nil, [PutNilEarly], when it only probes its reader: the empty digest); sel = which of two
    simultaneously ready result channels the handler's select takes.  [consumed msgs] = the messages
    up to and including the first finish_write. *)
 From BR Require Import Base.Prelude Gen.Consts Gen.Keys Model.Keys Model.ByteStream
@@ -23,13 +24,14 @@ Theorem C16_committed :
     w_status o = Ok cs ->
     exists m rest h sz c,
       msgs = m :: rest /\ parse_write_resource (m_name m) = Ok (h, sz, c) /\ sz <= maxsz /\
-      ((contains present h sz = true /\ cs = (if c =? cmp_identity then sz else -1) /\
+      ((early_return present h sz = true /\ cs = (if c =? cmp_identity then sz else -1) /\
         w_put_started o = false /\ w_stored o = false)
        \/
-       (contains present h sz = false /\ m_off m = 0 /\ names_ok (m_name m) (consumed msgs) = true /\
+       (early_return present h sz = false /\ m_off m = 0 /\ names_ok (m_name m) (consumed msgs) = true /\
         cs = sumlen (consumed msgs) /\ ((c =? cmp_identity) = true -> cs = sz) /\
-        w_put_clean o = Some (List.length (consumed msgs)) /\
-        put_ok (List.length (consumed msgs)) = true /\ w_stored o = true)).
+        (nil_early_free beh = true ->
+         w_put_clean o = Some (List.length (consumed msgs)) /\
+         put_ok (List.length (consumed msgs)) = true /\ w_stored o = true))).
 Proof. exact handler_ok_inv. Qed.
 Print Assumptions C16_committed.
 
@@ -37,17 +39,19 @@ Print Assumptions C16_committed.
 Theorem C16_present_after_success :
   forall sel beh perr maxsz present put_ok msgs cs,
     let o := write_handler sel beh perr maxsz present put_ok msgs in
+    nil_early_free beh = true ->
     w_status o = Ok cs ->
     exists m rest h sz c, msgs = m :: rest /\ parse_write_resource (m_name m) = Ok (h, sz, c) /\
                           contains (present_after present o) h sz = true.
 Proof.
-  intros sel beh perr maxsz present put_ok msgs cs o H.
+  intros sel beh perr maxsz present put_ok msgs cs o NF H.
   destruct (handler_ok_inv sel beh perr maxsz present put_ok msgs cs H) as (m & rest & h & sz & c & E & P & _ & Cases).
   exists m, rest, h, sz, c. split; [exact E|]. split; [exact P|].
-  unfold present_after, contains in *. fold o in Cases.
-  destruct Cases as [(C & _)|(_ & _ & _ & _ & _ & _ & _ & S)].
-  - apply orb_true_iff in C as [C|C]; [rewrite C; reflexivity|rewrite C, orb_true_r; reflexivity].
-  - rewrite S, !orb_true_r. reflexivity.
+  unfold present_after, early_return, contains in *. fold o in Cases.
+  destruct Cases as [(C & _)|(_ & _ & _ & _ & _ & Put)].
+  - apply andb_true_iff in C as [C _].
+    apply orb_true_iff in C as [C|C]; [rewrite C; reflexivity|rewrite C, orb_true_r; reflexivity].
+  - destruct (Put NF) as (_ & _ & S). rewrite S, !orb_true_r. reflexivity.
 Qed.
 Print Assumptions C16_present_after_success.
 
@@ -71,7 +75,7 @@ Theorem C16_rejects :
        ((forall x, parse_write_resource (m_name m) <> Ok x) \/
         exists h sz c, parse_write_resource (m_name m) = Ok (h, sz, c) /\
           (sz > maxsz \/
-           (contains present h sz = false /\
+           (early_return present h sz = false /\
             (m_off m <> 0 \/
              names_ok (m_name m) (consumed msgs) = false \/
              ((c =? cmp_identity) = true /\ sumlen (consumed msgs) <> sz)))))) ->
@@ -84,10 +88,23 @@ Print Assumptions C16_rejects.
    same class as one failing at the end. *)
 Theorem C16_select_independent :
   forall sel sel' beh perr maxsz present put_ok msgs,
+    nil_early_free beh = true ->
     outcome (write_handler sel beh perr maxsz present put_ok msgs) =
     outcome (write_handler sel' beh perr maxsz present put_ok msgs).
 Proof. exact select_independent. Qed.
 Print Assumptions C16_select_independent.
+
+(* FINDING: it is NOT true when Put returns nil before the end of the stream, which disk.Put does for
+   the empty digest when its reader fails before yielding a byte (undecodable zstd data: Put probes
+   one byte and ignores the read error): the same call then ends OK — acknowledging data Put never
+   accepted — or with an internal error, depending on the select. *)
+Theorem C16_select_independent_nil_early_refuted :
+  exists perr maxsz present put_ok msgs k cs,
+    w_status (write_handler false (PutNilEarly k) perr maxsz present put_ok msgs) = Ok cs /\
+    w_status (write_handler true (PutNilEarly k) perr maxsz present put_ok msgs) = Err EInternal /\
+    put_ok (List.length (consumed msgs)) = false.
+Proof. exact select_dependent_nil_early. Qed.
+Print Assumptions C16_select_independent_nil_early_refuted.
 
 Theorem C16_early_put_failure_same_class :
   forall sel sel' k e perr maxsz present put_ok msgs,
@@ -97,16 +114,46 @@ Theorem C16_early_put_failure_same_class :
 Proof. exact early_put_failure_same_class. Qed.
 Print Assumptions C16_early_put_failure_same_class.
 
-(* The blob already exists: the call returns after the first message with the blob size (blobs/) or
+(* The blob already exists (and is not the empty digest, which always "exists" and takes the normal
+   protocol): the call returns after the first message with the blob size (blobs/) or
    -1 (compressed-blobs/), whatever that message's offset, data and finish_write are and whatever
    follows in the stream (it is not required), and no Put is started. *)
 Theorem C16_existing_blob_early_return :
   forall sel beh perr maxsz present put_ok m rest h sz c,
-    parse_write_resource (m_name m) = Ok (h, sz, c) -> sz <= maxsz -> contains present h sz = true ->
+    parse_write_resource (m_name m) = Ok (h, sz, c) -> sz <= maxsz ->
+    contains present h sz = true -> is_empty_digest h sz = false ->
     write_handler sel beh perr maxsz present put_ok (m :: rest) =
     mkOut (Ok (if c =? cmp_identity then sz else -1)) false None false.
-Proof. exact existing_blob_early_return. Qed.
+Proof.
+  intros sel beh perr maxsz present put_ok m rest h sz c P Hm C NE.
+  apply (existing_blob_early_return sel beh perr maxsz present put_ok m rest h sz c P Hm).
+  unfold early_return. rewrite C, NE. reflexivity.
+Qed.
 Print Assumptions C16_existing_blob_early_return.
+
+(* Data sent for the empty digest is not acknowledged: there is no early return for it; over blobs/
+   any payload byte fails the call (whatever Put does); in general, whenever Put refuses what it was
+   handed (for the empty digest: it received a byte) the call fails — and nothing is stored. *)
+Theorem C16_empty_digest_with_data_rejected :
+  forall sel beh perr maxsz present put_ok m rest c,
+    let msgs := m :: rest in
+    let o := write_handler sel beh perr maxsz present put_ok msgs in
+    parse_write_resource (m_name m) = Ok (emptySha256, 0, c) ->
+    early_return present emptySha256 0 = false /\
+    (((c =? cmp_identity) = true /\ sumlen (consumed msgs) <> 0) \/
+     (nil_early_free beh = true /\ put_ok (List.length (consumed msgs)) = false) ->
+     (exists e, w_status o = Err e) /\ w_stored o = false).
+Proof.
+  intros sel beh perr maxsz present put_ok m rest c msgs o P.
+  split; [apply empty_digest_no_early_return|]. intros [[Hc Hs]|[NF NP]].
+  - apply handler_rejects. right. exists m, rest. split; [reflexivity|]. right.
+    exists emptySha256, 0, c. split; [exact P|]. right.
+    split; [apply empty_digest_no_early_return|]. right; right. split; assumption.
+  - apply handler_put_refuses; [exact NF|].
+    intros m' rest' h sz c' E P'. injection E as <- <-. rewrite P in P'. injection P' as <- <- <-.
+    split; [apply empty_digest_no_early_return|exact NP].
+Qed.
+Print Assumptions C16_empty_digest_with_data_rejected.
 
 (* QueryWriteStatus: complete with the full size exactly when the blob is present; otherwise 0 and
    incomplete; an unparsable name is an error. *)
@@ -177,6 +224,12 @@ Example C16_example :
   write_handler true PutToEnd EInternal 100 true (fun _ => false) msgs = mkOut (Ok 5) false None false /\
   w_status (write_handler false PutToEnd EInternal 100 false (fun _ => true)
               [mkMsg name 0 2 false; mkMsg name 0 4 true]) = Err EOutOfRange /\
+  w_status (write_handler false PutToEnd EBadRequest 100 true (fun j => Nat.eqb j 0)
+              [mkMsg ("uploads/u/blobs/" ++ emptySha256 ++ "/0") 0 1 true]) = Err EOutOfRange /\
+  w_status (write_handler false PutToEnd EBadRequest 100 true (fun j => Nat.eqb j 0)
+              [mkMsg ("uploads/u/compressed-blobs/zstd/" ++ emptySha256 ++ "/0") 0 18 true]) = Err EBadRequest /\
+  w_status (write_handler false PutToEnd EBadRequest 100 true (fun _ => true)
+              [mkMsg ("uploads/u/blobs/" ++ emptySha256 ++ "/0") 0 0 true]) = Ok 0 /\
   query_write_status true (name ++ "/more") = Ok (5, true) /\
   parse_read_resource ("a/b/compressed-blobs/zstd/" ++ h ++ "/5") = Ok (h, 5, cmp_zstd).
 Proof. cbv zeta. repeat split; vm_compute; reflexivity. Qed.
